@@ -14,10 +14,10 @@ template <typename T>
     // constexpr auto isLongLong = is_same_v<T, long long>;
     // static_assert(isInt || isLong || isLongLong);
 
-    if (n >= T(0)) {
+    if (n > T(0)) {
         return n;
     }
-    return n * T(-1);
+    return T(0) - n; // also maps -0.0 to +0.0
 }
 
 } // namespace detail
